@@ -139,6 +139,12 @@ def main(argv: list[str]) -> int:
                     known_hits.append((r, hit))
                 else:
                     violations.append((r, path))
+            elif rc == 2:
+                # the replay could not judge (e.g. the decoded field is right although the raw capture
+                # group differs from the SPEC value: the implementation post-processes the capture)
+                r["verdict"] = "inconclusive"
+                r["detail"] = "candidate not judgeable by its replay: " + str(r.get("detail"))[:200]
+                inconclusive.append(r)
             else:
                 harness_errors.append((r, "counterexample did not reproduce concretely (rc=%s)" % rc))
         elif v == "inconclusive":
